@@ -267,12 +267,25 @@ def close_spec(draw):
     else:
         stack += [["Rebalance", {}]]
         spec["tree"] = {"name": "root", "kind": "Strategy", "algos": stack, "children": list(tickers)}
+    if len(cd) >= 2 and not spec.get("close_last") and draw(st.integers(0, 2)) == 0:
+        # two maturity tables (bonds and hedges are usually kept apart), one closing algo for each, on the same strategy
+        names = sorted(cd)
+        k_ = draw(st.integers(1, len(names) - 1))
+        fr = spec["frames"].pop("closes")
+        for nm_, part in (("closes", names[:k_]), ("closes2", names[k_:])):
+            spec["frames"][nm_] = dict(fr, index=part, cols={"date": [cd[t] for t in part]})
+        spec["additional"].append("closes2")
+        algos_ = spec["tree"]["algos"]
+        i_ = [a[0] for a in algos_].index("ClosePositionsAfterDates")
+        pair = [["ClosePositionsAfterDates", {"frame": "closes"}], ["ClosePositionsAfterDates", {"frame": "closes2"}]]
+        algos_[i_ : i_ + 1] = pair if draw(st.booleans()) else pair[::-1]
+        spec["two_close_tables"] = True
     return spec
 
 
 def case_close(ctx, spec):
     bt = ctx.bt
-    base = {k: v for k, v in spec.items() if k not in ("close_dates", "close_last")}
+    base = {k: v for k, v in spec.items() if k not in ("close_dates", "close_last", "two_close_tables")}
     try:
         b = interp.mk_backtest(bt, base)
         with contextlib.redirect_stdout(io.StringIO()):
@@ -310,7 +323,7 @@ def case_close(ctx, spec):
         live = pos[pos.index > s.data.index[0]] if d is None else pos[(pos.index > s.data.index[0]) & (pos.index < pd.Timestamp(d))]
         if len(live) and (live == 0).all() and not isinstance(s.children[t], bt.core.HedgeSecurity) and len(s.children) <= 5:
             raise Violation("%s is never held although it is not (yet) closed" % t, signature="c20:never-held")
-    return {"nontrivial": closed_any, "labels": ["fi" if spec["tree"]["kind"] == "FixedIncomeStrategy" else "mv"] + (["closing_algo_last_after_pending_trade"] if spec.get("close_last") else [])}
+    return {"nontrivial": closed_any, "labels": ["fi" if spec["tree"]["kind"] == "FixedIncomeStrategy" else "mv"] + (["closing_algo_last_after_pending_trade"] if spec.get("close_last") else []) + (["two_close_tables"] if spec.get("two_close_tables") else [])}
 
 
 # ---- roll -----------------------------------------------------------------------------------------------
@@ -496,29 +509,37 @@ def case_close_roll(ctx, spec):
     finally:
         interp.Probe.registry.pop("c20cr", None)
     rolls, cd = spec["rolls"], spec["close_dates"]
-    o_closed, o_rolled = set(), set()
+    o_closed, o_rolled = set(), set()  # inactive names (what SelectActive filters on)
+    o_cpos, o_rpos = set(), set()  # names whose position has been closed / moved
     prev = {}  # positions seen at the previous probe
     exists = set()  # children existing when an algo is called (all declared eagerly here)
     closed_after_roll = False
     rolled_any = False
     for tag, now, pos, p_closed, p_rolled, selected in ev:
         if tag == "close":
-            due = [t for t in sorted(cd) if t not in o_closed and pd.Timestamp(cd[t]) <= now]  # child already or not: a matured name is closed
+            # past its date a name is inactive whether it is a child yet or not; whatever it holds is closed the first time the algo sees it
+            # as a child at or after that date
+            for t in sorted(cd):
+                if pd.Timestamp(cd[t]) <= now:
+                    o_closed.add(t)
+            due = [t for t in sorted(cd) if t in o_closed and t in pos and t not in o_cpos]
             for t in due:
-                o_closed.add(t)
+                o_cpos.add(t)
                 if t in o_rolled and abs(prev.get(t, 0.0)) > 0:
                     closed_after_roll = True
-            for t in o_closed:
-                if t in due and abs(pos.get(t, 0.0)) > 1e-9:
+                if abs(pos.get(t, 0.0)) > 1e-9:
                     raise Violation("%s: right after ClosePositionsAfterDates %s still holds %r although its close date %s has passed (held before the call: %r, rolled earlier: %s)" % (now, t, pos[t], cd[t], prev.get(t), t in o_rolled), signature="c20:closeroll-not-closed")
             for t in pos:
                 if t not in due and abs(pos[t] - prev.get(t, 0.0)) > 1e-9 * max(1.0, abs(prev.get(t, 0.0))):
-                    raise Violation("%s: ClosePositionsAfterDates changed %s from %r to %r (close date %s, already closed %s)" % (now, t, prev.get(t, 0.0), pos[t], cd.get(t), t in o_closed), signature="c20:closeroll-other")
+                    raise Violation("%s: ClosePositionsAfterDates changed %s from %r to %r (close date %s, already closed %s)" % (now, t, prev.get(t, 0.0), pos[t], cd.get(t), t in o_cpos), signature="c20:closeroll-other")
         elif tag == "roll":
-            due = [t for t in sorted(rolls) if t not in o_rolled and t in pos and pd.Timestamp(rolls[t]["date"]) <= now]
+            for t in sorted(rolls):
+                if pd.Timestamp(rolls[t]["date"]) <= now:
+                    o_rolled.add(t)
+            due = [t for t in sorted(rolls) if t in o_rolled and t in pos and t not in o_rpos]
             exp = dict(prev)
             for t in due:
-                o_rolled.add(t)
+                o_rpos.add(t)
                 exp[t] = 0.0
             for t in due:
                 q = prev.get(t, 0.0)
